@@ -225,9 +225,11 @@ def prov_to_dot(
             ann_rows.extend(
                 ANNOTATION_ROW_TEMPLATE
                 % (
-                    attr.uri,
+                    escape(attr.uri, quote=True),
                     escape(str(attr)),
-                    ' href="%s"' % value.uri if isinstance(value, Identifier) else "",
+                    ' href="%s"' % escape(value.uri, quote=True)
+                    if isinstance(value, Identifier)
+                    else "",
                     escape(
                         str(value)
                         if not isinstance(value, datetime)
